@@ -50,7 +50,9 @@ class R:
         if k in ('CXXMemberCallExpr', 'CallExpr'):
             return '%s(%s)' % (self.e(n['inner'][0]), ', '.join(self.e(a) for a in n['inner'][1:]))
         if k == 'CXXOperatorCallExpr':
-            return 'op(%s)' % ', '.join(self.e(a) for a in n['inner'][1:])
+            c = self.strip(n['inner'][0])
+            nm = (c.get('referencedDecl') or {}).get('name', '') if c.get('kind') == 'DeclRefExpr' else c.get('name', '')
+            return '%s(%s)' % (nm.replace(' ', ''), ', '.join(self.e(a) for a in n['inner'][1:]))
         if k == 'LambdaExpr':
             return 'lambda'
         if k == 'CXXConstructExpr':
@@ -109,6 +111,8 @@ class R:
             parts = [x for x in n['inner'] if isinstance(x, dict) and x.get('kind')]
             if len(parts) == 2:
                 return 'SIfThen %s %s' % (Q(self.e(parts[0])), L(self.block(self.strip(parts[1]))))
+            if len(parts) == 3:
+                return 'SIfElse %s %s %s' % (Q(self.e(parts[0])), L(self.block(self.strip(parts[1]))), L(self.block(self.strip(parts[2]))))
             return 'SOther %s' % Q(self.s(st))
         if k == 'CXXTryStmt':
             hs = [x for x in n['inner'][1:] if x.get('kind') == 'CXXCatchStmt']
@@ -119,6 +123,16 @@ class R:
             return 'SOther %s' % Q(self.s(st))
         if k == 'ForStmt':
             return 'SFor %s' % Q(self.s(st))
+        if k == 'WhileStmt':
+            parts = [x for x in n['inner'] if isinstance(x, dict) and x.get('kind')]
+            body = self.strip(parts[-1])
+            inner = body.get('inner', []) if body.get('kind') == 'CompoundStmt' else [body]
+            return 'SWhile %s [%s]' % (Q(self.e(parts[0])), '; '.join(x for x in (self.top(y) for y in inner) if x is not None))
+        if k == 'IfStmt' and len([x for x in n['inner'] if isinstance(x, dict) and x.get('kind')]) == 3:
+            parts = [x for x in n['inner'] if isinstance(x, dict) and x.get('kind')]
+            return 'SIfElse %s %s %s' % (Q(self.e(parts[0])), L(self.block(self.strip(parts[1]))), L(self.block(self.strip(parts[2]))))
+        if k == 'ReturnStmt':
+            return 'SReturn %s' % Q(self.e(n['inner'][0]) if n.get('inner') else '')
         if k in ('CXXMemberCallExpr', 'CallExpr', 'CXXOperatorCallExpr', 'BinaryOperator', 'UnaryOperator'):
             return 'SExpr %s' % Q(self.e(n))
         return 'SOther %s' % Q(self.s(st) or '')
@@ -133,6 +147,11 @@ def _methods(spec, name):
     for m in spec.get('inner', []):
         if m.get('kind') == 'CXXMethodDecl' and m.get('name') == name and any(y.get('kind') == 'CompoundStmt' for y in m.get('inner', [])):
             out.append(m)
+        if m.get('kind') == 'FunctionTemplateDecl' and m.get('name') == name:      # instantiations of a member template
+            for x in m.get('inner', []):
+                if x.get('kind') == 'CXXMethodDecl' and any(y.get('kind') == 'CompoundStmt' for y in x.get('inner', [])) \
+                        and 'C11Filter' in x.get('type', {}).get('qualType', ''):
+                    out.append(x)
     return out
 
 
@@ -155,6 +174,10 @@ def facts(tu, repo, root='/verif'):
     F = {}
     F['wrapper_stmts'] = [x for x in (r.top(y) for y in body(wrapper[0]).get('inner', [])) if x is not None]
     F['worker_stmts'] = [x for x in (r.top(y) for y in body(worker[0]).get('inner', [])) if x is not None]
+    rf = [m for m in _methods(spec, 'Remove') if 'C11Filter' in m.get('type', {}).get('qualType', '')]
+    if len(rf) != 1:
+        raise E('astfacts: expected exactly one instantiation of Remove(const ItemFilter&) for C11Filter, found %d' % len(rf))
+    F['remove_filter_stmts'] = [x for x in (r.top(y) for y in body(rf[0]).get('inner', [])) if x is not None]
     F['worker_noexcept'] = [Q(worker[0].get('type', {}).get('qualType', ''))]
     F['wrapper_noexcept'] = [Q(wrapper[0].get('type', {}).get('qualType', ''))]
     return F
